@@ -18,7 +18,7 @@ pub fn def() -> PropDef {
             "TenPow_Lt20", "TenPow_Lt590", "TenPow_Recursive", "Digits_Zero", "Digits_EstimateExact", "Digits_Corrected",
             "Norm_Zero", "Norm_Trim", "WithScale_Up", "WithPrec_Pad", "Tows_UpU64", "Tows_UpBig", "Wsr_Extend",
         ],
-        rule: "exhaustive: 10^k, 10^k - 1, 10^k + 1 for every k in 0..K (K = 5000 in both tiers) both signs, and every unscaled value with up to 5 digits (4 in the quick tier) at scales -6..6; seeded decimals up to 5000 digits with 0..5000 trailing zeros, values around 2^64 / 2^128 / 10^19 / 10^38, scale and precision extensions by 0..5000 (incl. 19, 20, 255..257, 589..591). Every value through new / from_bigint / from_biguint / From<(T, i64)>, digits, sign, fractional_digit_count, as_bigint_and_exponent, as_bigint_and_scale, into_bigint_and_exponent, into_bigint_and_scale, to_ref and the reference accessors (to_owned, to_owned_with_scale, count_digits, sign, fractional_digit_count, is_zero, clone_into, abs, neg), upward with_scale / with_scale_round / with_prec / with_precision_round, normalized; oracle: digit count from the decimal string, extension = exact power of ten, normalized = equal value without trailing zero digit (zero => (0,0)), equal values => identical normalized parts. distinct = distinct decimals; non-trivial = non-zero",
+        rule: "exhaustive machine-word boundaries: -9..9 and 192 integers on or beside 2^k / 10^k x scales -3, 0, 4 x every extension 0..45; exhaustive: 10^k, 10^k - 1, 10^k + 1 for every k in 0..K (K = 5000 in both tiers) both signs, and every unscaled value with up to 5 digits (4 in the quick tier) at scales -6..6; seeded decimals up to 5000 digits with 0..5000 trailing zeros, values around 2^64 / 2^128 / 10^19 / 10^38, scale and precision extensions by 0..5000 (incl. 19, 20, 255..257, 589..591). Every value through new / from_bigint / from_biguint / From<(T, i64)>, digits, sign, fractional_digit_count, as_bigint_and_exponent, as_bigint_and_scale, into_bigint_and_exponent, into_bigint_and_scale, to_ref and the reference accessors (to_owned, to_owned_with_scale, count_digits, sign, fractional_digit_count, is_zero, clone_into, abs, neg), upward with_scale / with_scale_round / with_prec / with_precision_round, normalized; oracle: digit count from the decimal string, extension = exact power of ten, normalized = equal value without trailing zero digit (zero => (0,0)), equal values => identical normalized parts. distinct = distinct decimals; non-trivial = non-zero",
     }
 }
 
@@ -28,12 +28,14 @@ fn plan(tier: Tier) -> Vec<Unit> {
             let mut v = crate::util::split_budget("pow10", 5_001, 20);
             v.extend(crate::util::split_budget_param("small", 2 * 10_000 - 1, 200, 10_000));
             v.extend(crate::util::split_budget("random", 60_000, 600));
+            v.extend(crate::util::split_budget("words", gen::word_values().len() as u64 + 19, 8));
             v
         }
         Tier::Thorough => {
             let mut v = crate::util::split_budget("pow10", 5_001, 10);
             v.extend(crate::util::split_budget_param("small", 2 * 100_000 - 1, 500, 100_000));
             v.extend(crate::util::split_budget("random", 12_000_000, 5_000));
+            v.extend(crate::util::split_budget("words", gen::word_values().len() as u64 + 19, 8));
             v
         }
         Tier::Miri => {
@@ -74,6 +76,24 @@ fn run_unit(unit: &Unit, r: &mut Rng, ctx: &mut Ctx) {
             }
             if unit.start == 0 {
                 ctx.exhaustive_notes.push(format!("C18: every unscaled value |n| < {} at scales -6..6", bound));
+            }
+        }
+        "words" => {
+            // exhaustive: the one-digit integers -9..9 and the machine-word boundary integers at scales -3, 0, 4,
+            // every scale / precision extension of 0..=45 digits
+            let mut w: Vec<BigInt> = (-9i64..=9).map(BigInt::from).collect();
+            w.extend(gen::word_values());
+            for idx in unit.start..unit.start + unit.count {
+                let n = &w[idx as usize % w.len()];
+                for s in [-3i64, 0, 4] {
+                    for ext in 0u64..=45 {
+                        let case = Case::new("value").push(Dec::new(n.clone(), s).tok()).push(ext);
+                        check_case(&case, ctx);
+                    }
+                }
+            }
+            if unit.start == 0 {
+                ctx.exhaustive_notes.push(format!("C18 word boundaries: {} unscaled integers (-9..9 and +-(2^k + d), +-(10^k + d), ...) x scales -3, 0, 4 x every extension 0..45", w.len()));
             }
         }
         "random" => {
